@@ -1,9 +1,480 @@
-"""c09_badarg.py -- stage 2 of C09 (stub, filled in later)"""
+"""c09_badarg.py -- stage 2 of C09: the finite product  public entry point x bad argument class.
+
+Every case is ONE public call from a fixed start state (built through the API by script commands), run in a forked
+ASan child by harness/c09_driver.cpp (mode badarg) with a dump of every entity before and after.
+Expected for a bad argument: the call returns false / null / an issue, changes nothing, never crashes.
+  classes: null | free (never added to anything) | orphan (its owner was destroyed) | oob (one past the end, SIZE_MAX)
+           | unknown (a name / id nothing has)
+  policy of a parameter:
+    L  looked up in the receiver (remove, replace-old, contains, has, ids of an equivalence, services that need the
+       entity's model): every class must be refused and change nothing
+    A  added / inserted (add*, replace-new): null must be refused; free/orphan are the normal use (must not crash)
+    S  stored as is (setUnits, setVariable, setImportSource, setModel...): null clears, any entity is accepted; must not crash
+The table of object-model commands mirrors harness/common/script.hpp; the service commands are those of
+harness/c09_badarg.hpp.  tools/c09_api.py enumerates the public headers so that an entry point nobody covers is seen.
+"""
+import json
+import os
+import subprocess
+import sys
+
+from script_gen import S
+
+sys.path.insert(0, os.path.join(os.path.dirname(os.path.dirname(os.path.abspath(__file__))), "tools"))
+import c09_api  # noqa: E402
+
+MATH1 = ('<math xmlns="http://www.w3.org/1998/Math/MathML" xmlns:cellml="http://www.cellml.org/cellml/2.0#"><apply><eq/>'
+         '<apply><diff/><bvar><ci>t</ci></bvar><ci>x</ci></apply><cn cellml:units="dimensionless">1</cn></apply></math>')
+MATH2 = ('<math xmlns="http://www.w3.org/1998/Math/MathML" xmlns:cellml="http://www.cellml.org/cellml/2.0#"><apply><eq/>'
+         '<ci>y</ci><cn cellml:units="dimensionless">2</cn></apply></math>')
+
+MATH3 = MATH2.replace('cellml:units="dimensionless"', 'cellml:units="myunits"')
+
+# slots of the start state
+M, C1, C2, T1, X, T2, Y, U1, R, IS = 0, 1, 2, 3, 4, 5, 6, 7, 8, 9
+FREE = {"c": 10, "v": 11, "u": 12, "r": 13, "i": 14, "m": 15}
+ORPH = {"c": 16, "v": 17, "u": 18, "r": 19}
+
+BASE = [
+    "model 0 %s" % S("m"), "setid 0 %s" % S("mid"),
+    "component 1 %s" % S("c1"), "setid 1 %s" % S("c1id"), "component 2 %s" % S("c2"), "setid 2 %s" % S("c2id"),
+    "addcomponent 0 1", "addcomponent 0 2",
+    "variable 3 %s" % S("t"), "setid 3 %s" % S("tid"), "variable 4 %s" % S("x"), "setid 4 %s" % S("xid"),
+    "variable 5 %s" % S("t"), "setid 5 %s" % S("t2id"), "variable 6 %s" % S("y"), "setid 6 %s" % S("yid"),
+    "addvariable 1 3", "addvariable 1 4", "addvariable 2 5", "addvariable 2 6",
+    "units 7 %s" % S("u1"), "setid 7 %s" % S("uid"), "addunit_ref 7 %s" % S("second"), "setunitid 7 0 %s" % S("unitid"), "addunits 0 7",
+    "setunits_p 3 7", "setunits_p 5 7", "setunits_n 4 %s" % S("dimensionless"), "setunits_n 6 %s" % S("dimensionless"),
+    "setinitialvalue_s 4 %s" % S("0"),
+    "setinterfacetype_s 3 %s" % S("public"), "setinterfacetype_s 5 %s" % S("public"),
+    "setmath 1 %s" % S(MATH1), "setmath 2 %s" % S(MATH2),
+    "addequivalence_ids 3 5 %s %s" % (S("mapid"), S("connid")),
+    "reset 8 1", "importsource 9", "seturl 9 %s" % S("other.cellml"),
+    # never added to anything
+    "component 10 %s" % S("free_c"), "variable 11 %s" % S("free_v"), "units 12 %s" % S("free_u"), "reset 13", "importsource 14",
+    "model 15 %s" % S("free_m"),
+    # owner destroyed: created, added, the owner dropped, the child kept
+    "component 16 %s" % S("orphan_c"), "variable 17 %s" % S("orphan_v"), "units 18 %s" % S("orphan_u"), "reset 19",
+    "model 20", "component 21", "model 22", "component 23",
+    "addcomponent 20 16", "addvariable 21 17", "addunits 22 18", "addreset 23 19",
+    "release 20", "release 21", "release 22", "release 23",
+]
+# the reset lives in a second, small model so that model 0 stays analysable
+WITH_RESET = BASE + ["model 24 %s" % S("rm"), "component 25 %s" % S("rc"), "addcomponent 24 25", "variable 26 %s" % S("rv"),
+                     "addvariable 25 26", "addreset 25 8", "setvariable 8 26", "settestvariable 8 26"]
+SERVICES = WITH_RESET + ["svc", "ann_setmodel 0", "ev_create 6", "an_addext", "an_analyse 0", "val_validate 0",
+                         "imp_addimportsource 9", "imp_addmodel 15 %s" % S("lib.cellml")]
+# the annotator's model has been destroyed
+DEAD_MODEL = ["model 0 %s" % S("m"), "component 1 %s" % S("c"), "setid 1 %s" % S("cid"), "addcomponent 0 1", "variable 2 %s" % S("v"),
+              "addvariable 1 2", "svc", "ann_setmodel 0", "release 0"]
+
+STATES = {"objects": WITH_RESET, "services": SERVICES, "deadmodel": DEAD_MODEL}
+
+COUNTS = {  # one past the end, per (receiver slot, list)
+    ("comp", 0): 2, ("comp", 1): 0, ("var", 1): 2, ("reset", 25): 1, ("reset", 1): 0, ("units", 0): 1, ("unit", 7): 1,
+    ("eq", 3): 1, ("eq", 4): 0,
+}
+
+# ---- object model: command, return kind (b bool / p pointer / o other), parameter specs.
+#  receivers are fixed slots; spec '<t><policy>' t in c v u r i m x(any entity) ; 'idx:<list>' ; 'name' (looked up) ;
+#  anything else is a literal token
+OBJ = """
+equals 1 o xS
+hasancestor 1 b xL
+addcomponent 0 b cA | addcomponent 1 b cA
+removecomponent_i 0 b idx:comp | removecomponent_i 1 b idx:comp
+removecomponent_n 0 b name true | removecomponent_n 1 b name false
+removecomponent_p 0 b cL true | removecomponent_p 1 b cL false
+containscomponent_n 0 b name true | containscomponent_p 0 b cL true | containscomponent_p 1 b cL false
+component_i 0 p idx:comp | component_n 0 p name true | component_n 1 p name false
+takecomponent_i 0 p idx:comp | takecomponent_n 0 p name true
+replacecomponent_i 0 b idx:comp 10 | replacecomponent_i 0 b 0 cA | replacecomponent_i 1 b idx:comp 10
+replacecomponent_n 0 b name 10 true | replacecomponent_n 0 b %(c1)s cA true
+replacecomponent_p 0 b cL 10 true | replacecomponent_p 0 b 1 cA true | replacecomponent_p 1 b cL 10 false
+setsourcecomponent 10 o iS %(nm)s
+addvariable 1 b vA | removevariable_i 1 b idx:var | removevariable_n 1 b name | removevariable_p 1 b vL
+variable_i 1 p idx:var | variable_n 1 p name | takevariable_i 1 p idx:var | takevariable_n 1 p name
+hasvariable_n 1 b name | hasvariable_p 1 b vL
+addreset 1 b rA | takereset 25 p idx:reset | removereset_i 25 b idx:reset | removereset_p 25 b rL | reset_i 25 p idx:reset | hasreset 25 b rL
+takereset 1 p idx:reset | removereset_i 1 b idx:reset
+addunits 0 b uA | removeunits_i 0 b idx:units | removeunits_n 0 b name | removeunits_p 0 b uL
+hasunits_n 0 b name | hasunits_p 0 b uL | units_i 0 p idx:units | units_n 0 p name | takeunits_i 0 p idx:units | takeunits_n 0 p name
+replaceunits_i 0 b idx:units 12 | replaceunits_i 0 b 0 uA | replaceunits_n 0 b name 12 | replaceunits_n 0 b %(u1)s uA
+replaceunits_p 0 b uL 12 | replaceunits_p 0 b 7 uA
+addequivalence 4 b vA | addequivalence vA b 4
+addequivalence_ids 4 b vA %(nm)s %(nm)s | addequivalence_ids vA b 4 %(nm)s %(nm)s
+removeequivalence 3 b vL | removeequivalence vL b 3
+setequivalencemappingid 3 o vL %(nm)s | setequivalencemappingid vL o 3 %(nm)s
+setequivalenceconnectionid 3 o vL %(nm)s | setequivalenceconnectionid vL o 3 %(nm)s
+equivalencemappingid 3 o vL | equivalencemappingid vL o 3 | equivalenceconnectionid 3 o vL | equivalenceconnectionid vL o 3
+removeequivalencemappingid 3 o vL | removeequivalencemappingid vL o 3
+removeequivalenceconnectionid 3 o vL | removeequivalenceconnectionid vL o 3
+equivalentvariable 3 p idx:eq | equivalentvariable 4 p idx:eq
+hasequivalentvariable 3 b vL false | hasequivalentvariable 3 b vL true
+setunits_p 4 o uS | setinitialvalue_v 4 o vS
+unitattributes_i 7 o idx:unit | unitattributereference 7 o idx:unit | setunitattributereference 7 o idx:unit %(nm)s
+unitattributeprefix 7 o idx:unit | unitattributeexponent 7 o idx:unit | unitattributemultiplier 7 o idx:unit
+removeunit_i 7 b idx:unit | removeunit_n 7 b name | unitattributes_n 7 o name | setunitid 7 b idx:unit %(nm)s | unitid 7 o idx:unit
+setsourceunits 12 o iS %(nm)s
+scalingfactor 7 o uL | scalingfactor uL o 7 | compatible 7 b uL | compatible uL b 7 | equivalent 7 b uL | equivalent uL b 7
+setvariable 8 o vS | settestvariable 8 o vS
+setmodel 9 o mS | setimportsource 10 o iS | setimportsource 12 o iS
+""" % {"nm": S("nm"), "c1": S("c1"), "u1": S("u1")}
+
+# calls on an entity that is itself "never added" / "owner destroyed" (the receiver is the bad argument), DESIGN rows 18 / 27
+RECEIVER_CASES = [
+    # Component::isDefined() on a component outside any model whose math has a cn with units
+    ("objects", ["setmath 10 %s" % S(MATH2)], "isdefined 10", "b", "nocrash", "Component::isDefined", "free"),
+    ("objects", ["setmath 16 %s" % S(MATH2)], "isdefined 16", "b", "nocrash", "Component::isDefined", "orphan"),
+    ("objects", ["setmath 10 %s" % S(MATH3)], "isdefined 10", "b", "nocrash", "Component::isDefined", "free"),
+    ("objects", ["setmath 16 %s" % S(MATH3)], "isdefined 16", "b", "nocrash", "Component::isDefined", "orphan"),
+    ("objects", ["setmath 1 %s" % S(MATH3)], "isdefined 0", "b", "nocrash", "Model::isDefined", "unknown"),
+    ("objects", [], "requiresimports 10", "b", "nocrash", "Component::requiresImports", "free"),
+    # an external variable made from nothing / from a variable outside the model, then the analysis
+    ("services", ["ev_create null", "an_addext"], "an_analyse 0", "o", "nocrash", "Analyser::analyseModel", "null"),
+    ("services", ["an_addext_null"], "an_analyse 0", "o", "nocrash", "Analyser::analyseModel", "null"),
+    ("services", ["ev_create 11", "an_addext"], "an_analyse 0", "o", "nocrash", "Analyser::analyseModel", "free"),
+    ("services", ["ev_create 17", "an_addext"], "an_analyse 0", "o", "nocrash", "Analyser::analyseModel", "orphan"),
+    ("services", ["ev_create 4", "ev_adddep 3", "an_addext", "release 0"], "an_analyse 15", "o", "nocrash", "Analyser::analyseModel", "orphan"),
+    ("objects", [], "isdefined 12", "b", "nocrash", "Units::isDefined", "free"),
+    ("objects", [], "isdefined 18", "b", "nocrash", "Units::isDefined", "orphan"),
+    ("objects", [], "requiresimports 18", "b", "nocrash", "Units::requiresImports", "orphan"),
+    ("objects", [], "isbaseunit 18", "b", "nocrash", "Units::isBaseUnit", "orphan"),
+    ("objects", [], "parent 16", "p", "refuse", "ParentedEntity::parent", "orphan"),
+    ("objects", [], "hasparent 17", "b", "refuse", "ParentedEntity::hasParent", "orphan"),
+    ("objects", [], "hasancestor 17 0", "b", "refuse", "ParentedEntity::hasAncestor", "orphan"),
+    ("objects", [], "clone 16 30", "o", "nocrash", "Component::clone", "orphan"),
+    ("objects", [], "clone 17 30", "o", "nocrash", "Variable::clone", "orphan"),
+    # Model::clone() with an equivalence to a parent-less variable
+    ("objects", ["addequivalence 4 11"], "clone 0 30", "o", "nocrash", "Model::clone", "free"),
+    ("objects", ["addequivalence 4 17"], "clone 0 30", "o", "nocrash", "Model::clone", "orphan"),
+    ("objects", ["addequivalence 4 11"], "fixvariableinterfaces 0", "b", "nocrash", "Model::fixVariableInterfaces", "free"),
+    ("objects", ["addequivalence 4 11"], "print 0", "o", "nocrash", "Printer::printModel", "free"),
+    ("objects", ["addequivalence 4 11"], "validate 0", "o", "nocrash", "Validator::validateModel", "free"),
+    # Validator::validateModel with a reset whose variable has no parent component
+    ("objects", ["setvariable 8 11", "settestvariable 8 11"], "validate 24", "o", "nocrash", "Validator::validateModel", "free"),
+    ("objects", ["setvariable 8 17", "settestvariable 8 17"], "validate 24", "o", "nocrash", "Validator::validateModel", "orphan"),
+    ("objects", ["setvariable 8 11"], "clone 24 30", "o", "nocrash", "Model::clone", "free"),
+    ("objects", ["setunits_p 4 12"], "validate 0", "o", "nocrash", "Validator::validateModel", "free"),
+    ("objects", ["setunits_p 4 18"], "linkunits 0", "b", "nocrash", "Model::linkUnits", "orphan"),
+    ("objects", ["setunits_p 4 18"], "hasunlinkedunits 0", "b", "nocrash", "Model::hasUnlinkedUnits", "orphan"),
+    ("objects", ["setunits_p 4 18"], "clean 0", "o", "nocrash", "Model::clean", "orphan"),
+    ("objects", ["setimportsource 10 14"], "hasimports 0", "b", "nocrash", "Model::hasImports", "free"),
+]
+
+# ---- services: command template, return kind, policy per slot-typed parameter as for OBJ
+SVC = """
+ann_setmodel o mS
+ann_item p name | ann_item p name 0 | ann_item p %(cid)s idx1 | ann_component p name | ann_component p %(cid)s idx1
+ann_componentencapsulation p name | ann_componentencapsulation p %(cid)s idx1 | ann_encapsulation p name | ann_encapsulation p name 0
+ann_variable p name | ann_variable p %(xid)s idx1 | ann_reset p name | ann_reset p name 0 | ann_model p name | ann_model p %(mid)s idx1
+ann_importsource p name | ann_importsource p name 0 | ann_units p name | ann_units p %(uid)s idx1
+ann_mapvariables p name | ann_mapvariables p %(mapid)s idx1 | ann_connection p name | ann_connection p %(connid)s idx1
+ann_unitsitem p name | ann_unitsitem p %(unitid)s idx1 | ann_testvalue p name | ann_testvalue p name 0
+ann_resetvalue p name | ann_resetvalue p name 0
+ann_assignallids b mN | ann_clearallids o mN | ann_isunique b name | ann_items o name | ann_itemcount o name
+ann_assignid_model s mF 7 | ann_assignid_component s cL 0 | ann_assignid_component s cL 1 | ann_assignid_importsource s iL
+ann_assignid_reset s rL 8 | ann_assignid_reset s rL 9 | ann_assignid_units s uL | ann_assignid_unitsitem s uL 0
+ann_assignid_unitsitem s 7 idx:unit | ann_assignid_unitsitem_null s | ann_assignid_variable s vL
+ann_assignid_pair s vL 3 5 | ann_assignid_pair s 3 vL 5 | ann_assignid_pair s vL 3 2 | ann_assignid_pair_null s 5
+ann_assignid_vv s vL 3 5 | ann_assignid_vv s 3 vL 2 | ann_assignid_unit s uL 0 | ann_assignid_unit s 7 idx:unit
+ann_assignid_any_null s | ann_assignid_any_item s name
+imp_flatten p mN | imp_resolve b mN %(nm)s | imp_library_n p name | imp_library_i p idx:lib | imp_key s idx:lib
+imp_addmodel b mN %(nm)s | imp_replacemodel b mN %(lib)s | imp_replacemodel b 15 name | imp_clearimports o mN
+imp_addimportsource b iA | imp_importsource p idx:is | imp_removeimportsource_i b idx:is | imp_removeimportsource_p b iL
+imp_hasimportsource b iL
+an_analyse o mN
+an_addext_null b | an_addext_v b vS | an_removeext_i b idx:ext | an_removeext_m b mF %(c2)s %(y)s | an_removeext_m b 0 name %(y)s
+an_removeext_m b 0 %(c2)s name | an_removeext_p b vL | an_containsext_m b mF %(c2)s %(y)s | an_containsext_m b 0 name %(y)s
+an_containsext_p b vL | an_ext_i p idx:ext | an_ext_m p mF %(c2)s %(y)s | an_ext_m p 0 %(c2)s name
+ev_create_tmp p vS | ev_adddep b vL | ev_removedep_i b idx:dep | ev_removedep_m b mF %(c2)s %(y)s | ev_removedep_m b 0 name %(y)s
+ev_removedep_p b vL | ev_containsdep_m b mF %(c2)s %(y)s | ev_containsdep_p b vL | ev_dep_i p idx:dep | ev_dep_m p mF %(c2)s %(y)s
+ev_dep_m p 0 %(c2)s name
+am_state p idx:state | am_variable p idx:amvar | am_equation p idx:ameq | am_areequivalent b vL 3 | am_areequivalent b 3 vL
+aeq_dependency p idx:big | aeq_nlasibling p idx:big | aeq_variable p idx:big | avar_equation p idx:big
+gen_setprofile_null o | gen_setmodel_null o | gen_equationcode_null s | gen_equationcode_null2 s
+unitsitem_create_null b 0 | unitsitem_create b uL 0 | unitsitem_create b 7 idx:unit | variablepair_create b vS 3 | variablepair_create b 3 vS
+ast_setleft_null p | ast_setright_null p | ast_setparent_null p | ast_setvariable p vS | ast_swap_null o
+val_validate o mN | pr_print s mN | log_issue p idx:big | log_error p idx:big | log_warning p idx:big | log_message p idx:big
+""" % {"nm": S("nm"), "cid": S("c1id"), "xid": S("xid"), "mid": S("mid"), "uid": S("uid"), "mapid": S("mapid"),
+       "connid": S("connid"), "unitid": S("unitid"), "lib": S("lib.cellml"), "c2": S("c2"), "y": S("y")}
+
+SVC_COUNTS = {"lib": 1, "is": 1, "ext": 1, "dep": 0, "state": 1, "amvar": 1, "ameq": 2, "big": 99, "unit": 1}
+
+# after the annotator's model died: every annotator entry point (no argument needed to go wrong)
+DEAD_CALLS = ["ann_ids", "ann_duplicateids", "ann_item %s" % S("cid"), "ann_component %s" % S("cid"), "ann_isunique %s" % S("cid"),
+              "ann_itemcount %s" % S("cid"), "ann_items %s" % S("cid"), "ann_assignid_component 1 0", "ann_assignid_variable 2",
+              "ann_variable %s" % S("cid"), "ann_assignid_any_item %s" % S("cid")]
+
+
+def bad_values(t, policy):
+    """[(class, token)] for a pointer parameter of type t"""
+    out = [("null", "null")]
+    if t in FREE and policy in "LASF":
+        out.append(("free", str(FREE[t])))
+    if t in ORPH and policy in "LAS":
+        out.append(("orphan", str(ORPH[t])))
+    if t == "x":
+        out += [("free", str(FREE["c"])), ("orphan", str(ORPH["v"]))]
+    return out
+
+
+def expect(policy, cls):
+    """'refuse' (false/null + unchanged) | 'nocrash'"""
+    if policy == "L":
+        return "refuse"
+    if policy == "A":
+        return "refuse" if cls == "null" else "nocrash"
+    if policy == "N":                      # model parameter of a service: null must be refused
+        return "refuse"
+    if policy == "F":                      # model parameter used as a key: null and a foreign model must be refused
+        return "refuse"
+    return "nocrash"
+
+
+def expand(table, state, svc):
+    """-> list of case dicts"""
+    cases = []
+    for entry in [e.strip() for line in table.strip().split("\n") for e in line.split("|") if e.strip()]:
+        tok = entry.split()
+        if svc:
+            cmd, rk, params, recv = tok[0], tok[1], tok[2:], []
+        else:
+            # the return kind is the first one-letter token among b p o after the leading literals
+            cmd = tok[0]
+            k = next(i for i in range(1, len(tok)) if tok[i] in ("b", "p", "o"))
+            recv, rk, params = tok[1:k], tok[k], tok[k + 1:]
+        specs = recv + params
+
+        def special(sp):
+            return (len(sp) == 2 and sp[0] in "cvurimx" and sp[1] in "LASNF") or sp.startswith("idx:") or sp in ("idx1", "name")
+        if not any(special(sp) for sp in specs):
+            # a call whose bad argument is built into the command (…_null)
+            cases.append({"state": state, "extra": [], "call": " ".join([cmd] + specs), "ret": rk,
+                          "expect": "refuse" if rk in "bps" else "nocrash", "cmd": cmd, "cls": "null", "param": -1})
+            continue
+        # one case per bad value of each special parameter, the others stay as written
+        for pi, sp in enumerate(specs):
+            vals = None
+            if len(sp) == 2 and sp[0] in "cvurimx" and sp[1] in "LASNF":
+                vals = [(c, t, expect(sp[1], c)) for c, t in bad_values(sp[0], sp[1])]
+            elif sp.startswith("idx:"):
+                key = sp[4:]
+                n = SVC_COUNTS[key] if svc else COUNTS[(key, int(specs[0]))]
+                vals = [("oob", str(n), "refuse"), ("oob", "-1", "refuse")]
+            elif sp == "idx1":
+                vals = [("oob", "1", "refuse"), ("oob", "-1", "refuse")]
+            elif sp == "name":
+                vals = [("unknown", S("nope"), "refuse")]
+            if vals is None:
+                continue
+            for cls, token, exp in vals:
+                args = []
+                for pj, sq in enumerate(specs):
+                    if pj == pi:
+                        args.append(token)
+                    elif len(sq) == 2 and sq[0] in "cvurimx" and sq[1] in "LASNF":
+                        args.append("null")          # never two special parameters in one entry
+                    elif sq.startswith("idx:") or sq == "idx1":
+                        args.append("0")
+                    elif sq == "name":
+                        args.append(S("c1"))
+                    else:
+                        args.append(sq)
+                cases.append({"state": state, "extra": [], "call": cmd + " " + " ".join(args), "ret": rk, "expect": exp,
+                              "cmd": cmd, "cls": cls, "param": pi})
+    return cases
+
+
+def all_cases():
+    cases = expand(OBJ, "objects", False) + expand(SVC, "services", True)
+    for st, extra, call, rk, exp, ep, cls in RECEIVER_CASES:
+        cases.append({"state": st, "extra": extra, "call": call, "ret": rk, "expect": exp, "cmd": call.split()[0], "cls": cls,
+                      "param": -1, "entry_point": ep})
+    for call in DEAD_CALLS:
+        cases.append({"state": "deadmodel", "extra": [], "call": call, "ret": "o", "expect": "nocrash", "cmd": call.split()[0],
+                      "cls": "orphan", "param": -1})
+    return cases
+
+
+# ---- which public entry point a command exercises (for the coverage report)
+CMD_API = {
+    "equals": "Entity::equals", "hasancestor": "ParentedEntity::hasAncestor", "addcomponent": "ComponentEntity::addComponent",
+    "removecomponent_i": "ComponentEntity::removeComponent(size_t)", "removecomponent_n": "ComponentEntity::removeComponent(const std::string &, bool)",
+    "removecomponent_p": "ComponentEntity::removeComponent(const ComponentPtr &, bool)",
+    "containscomponent_n": "ComponentEntity::containsComponent(const std::string &, bool)",
+    "containscomponent_p": "ComponentEntity::containsComponent(const ComponentPtr &, bool)",
+    "component_i": "ComponentEntity::component(size_t)", "component_n": "ComponentEntity::component(const std::string &, bool)",
+    "takecomponent_i": "ComponentEntity::takeComponent(size_t)", "takecomponent_n": "ComponentEntity::takeComponent(const std::string &, bool)",
+    "replacecomponent_i": "ComponentEntity::replaceComponent(size_t, const ComponentPtr &)",
+    "replacecomponent_n": "ComponentEntity::replaceComponent(const std::string &, const ComponentPtr &, bool)",
+    "replacecomponent_p": "ComponentEntity::replaceComponent(const ComponentPtr &, const ComponentPtr &, bool)",
+    "setsourcecomponent": "Component::setSourceComponent", "addvariable": "Component::addVariable",
+    "removevariable_i": "Component::removeVariable(size_t)", "removevariable_n": "Component::removeVariable(const std::string &)",
+    "removevariable_p": "Component::removeVariable(const VariablePtr &)", "variable_i": "Component::variable(size_t)",
+    "variable_n": "Component::variable(const std::string &)", "takevariable_i": "Component::takeVariable(size_t)",
+    "takevariable_n": "Component::takeVariable(const std::string &)", "hasvariable_n": "Component::hasVariable(const std::string &)",
+    "hasvariable_p": "Component::hasVariable(const VariablePtr &)", "addreset": "Component::addReset", "takereset": "Component::takeReset",
+    "removereset_i": "Component::removeReset(size_t)", "removereset_p": "Component::removeReset(const ResetPtr &)", "reset_i": "Component::reset",
+    "hasreset": "Component::hasReset", "addunits": "Model::addUnits", "removeunits_i": "Model::removeUnits(size_t)",
+    "removeunits_n": "Model::removeUnits(const std::string &)", "removeunits_p": "Model::removeUnits(const UnitsPtr &)",
+    "hasunits_n": "Model::hasUnits(const std::string &)", "hasunits_p": "Model::hasUnits(const UnitsPtr &)", "units_i": "Model::units(size_t)",
+    "units_n": "Model::units(const std::string &)", "takeunits_i": "Model::takeUnits(size_t)", "takeunits_n": "Model::takeUnits(const std::string &)",
+    "replaceunits_i": "Model::replaceUnits(size_t, const UnitsPtr &)", "replaceunits_n": "Model::replaceUnits(const std::string &, const UnitsPtr &)",
+    "replaceunits_p": "Model::replaceUnits(const UnitsPtr &, const UnitsPtr &)",
+    "addequivalence": "Variable::addEquivalence(const VariablePtr &, const VariablePtr &)",
+    "addequivalence_ids": "Variable::addEquivalence(const VariablePtr &, const VariablePtr &, const std::string &, const std::string &)",
+    "removeequivalence": "Variable::removeEquivalence", "setequivalencemappingid": "Variable::setEquivalenceMappingId",
+    "setequivalenceconnectionid": "Variable::setEquivalenceConnectionId", "equivalencemappingid": "Variable::equivalenceMappingId",
+    "equivalenceconnectionid": "Variable::equivalenceConnectionId", "removeequivalencemappingid": "Variable::removeEquivalenceMappingId",
+    "removeequivalenceconnectionid": "Variable::removeEquivalenceConnectionId", "equivalentvariable": "Variable::equivalentVariable",
+    "hasequivalentvariable": "Variable::hasEquivalentVariable", "setunits_p": "Variable::setUnits(const UnitsPtr &)",
+    "setinitialvalue_v": "Variable::setInitialValue(const VariablePtr &)", "unitattributes_i": "Units::unitAttributes(size_t, ...)",
+    "unitattributereference": "Units::unitAttributeReference", "setunitattributereference": "Units::setUnitAttributeReference",
+    "unitattributeprefix": "Units::unitAttributePrefix", "unitattributeexponent": "Units::unitAttributeExponent",
+    "unitattributemultiplier": "Units::unitAttributeMultiplier", "removeunit_i": "Units::removeUnit(size_t)",
+    "removeunit_n": "Units::removeUnit(const std::string &)", "unitattributes_n": "Units::unitAttributes(const std::string &, ...)",
+    "setunitid": "Units::setUnitId", "unitid": "Units::unitId", "setsourceunits": "Units::setSourceUnits", "scalingfactor": "Units::scalingFactor",
+    "compatible": "Units::compatible", "equivalent": "Units::equivalent", "setvariable": "Reset::setVariable",
+    "settestvariable": "Reset::setTestVariable", "setmodel": "ImportSource::setModel", "setimportsource": "ImportedEntity::setImportSource",
+}
+
+
+def api_method_of(cmd, entry_point=None):
+    """'Class::method' exercised by a command"""
+    if entry_point:
+        return entry_point.split("(")[0].strip()
+    if cmd in CMD_API:
+        return CMD_API[cmd].split("(")[0]
+    pre, _, rest = cmd.partition("_")
+    cls = {"ann": "Annotator", "imp": "Importer", "an": "Analyser", "ev": "AnalyserExternalVariable", "am": "AnalyserModel",
+           "aeq": "AnalyserEquation", "avar": "AnalyserVariable", "gen": "Generator", "val": "Validator", "pr": "Printer", "log": "Logger"}.get(pre)
+    names = {"setmodel": "setModel", "componentencapsulation": "componentEncapsulation", "importsource": "importSource",
+             "mapvariables": "mapVariables", "unitsitem": "unitsItem", "testvalue": "testValue", "resetvalue": "resetValue",
+             "assignallids": "assignAllIds", "clearallids": "clearAllIds", "isunique": "isUnique", "itemcount": "itemCount",
+             "flatten": "flattenModel", "resolve": "resolveImports", "library": "library", "addmodel": "addModel", "replacemodel": "replaceModel",
+             "clearimports": "clearImports", "addimportsource": "addImportSource", "removeimportsource": "removeImportSource",
+             "hasimportsource": "hasImportSource", "analyse": "analyseModel", "addext": "addExternalVariable", "removeext": "removeExternalVariable",
+             "containsext": "containsExternalVariable", "ext": "externalVariable", "create": "create", "adddep": "addDependency",
+             "removedep": "removeDependency", "containsdep": "containsDependency", "dep": "dependency", "areequivalent": "areEquivalentVariables",
+             "nlasibling": "nlaSibling", "setprofile": "setProfile", "equationcode": "equationCode", "validate": "validateModel", "print": "printModel",
+             "duplicateids": "duplicateIds"}
+    base = rest.split("_")[0]
+    if base == "assignid":
+        return "Annotator::assignId"
+    if cmd.startswith("unitsitem_create"):
+        return "UnitsItem::create"
+    if cmd.startswith("variablepair_create"):
+        return "VariablePair::create"
+    if pre == "ast":
+        return "AnalyserEquationAst::" + {"setleft": "setLeftChild", "setright": "setRightChild", "setparent": "setParent",
+                                          "setvariable": "setVariable", "swap": "swapLeftAndRightChildren"}[base]
+    return "%s::%s" % (cls, names.get(base, base))
+
+
+import re
+VALUE_ONLY = re.compile(r"^(create|set(Id|Name|EncapsulationId|Url|ImportReference|ResetValueId|TestValueId|\w*String)|addUnit)$")
+
+RET_OK = {"b": ("false",), "p": ("null",), "s": ("s",)}
+
+
+def judge(case, line):
+    """-> (verdict, text): verdict in ok | crash | changed | accepted"""
+    t = line.split()
+    if not t or t[0].startswith(("CRASH", "TIMEOUT", "THROW")) or line == "<missing>":
+        return "crash", line
+    if t[0].startswith("ERR"):
+        return "error", line
+    ret, same = t[0], t[1] if len(t) > 1 else "?"
+    issues = t[2][7:] if len(t) > 2 else "-"
+    if case["expect"] == "refuse":
+        if same != "same":
+            return "changed", line
+        ok = RET_OK.get(case["ret"])
+        if ok is not None and ret not in ok and not (issues not in ("-", "0")):
+            return "accepted", line
+    return "ok", line
 
 
 def stage2(ctx, drv):
-    return {"nontrivial": 0, "samples": [], "dist": {}, "entry_points": {}}
+    import vf
+    cases = all_cases()
+    lines = []
+    for c in cases:
+        lines.append(";".join(STATES[c["state"]] + c["extra"]) + "|" + c["call"])
+    # shard
+    nsh = vf.NCPU
+    procs, out = [], [None] * len(lines)
+    env = dict(os.environ)
+    env.update({"ASAN_OPTIONS": "detect_leaks=0:abort_on_error=0:exitcode=99", "UBSAN_OPTIONS": "halt_on_error=1:exitcode=98"})
+    for k in range(nsh):
+        part = lines[k::nsh]
+        if not part:
+            continue
+        p = os.path.join(ctx.workdir, "bad.%d.cases" % k)
+        open(p, "w").write("\n".join(part) + "\n")
+        of = open(p + ".out", "wb")
+        procs.append((k, len(part), subprocess.Popen([drv, "badarg", p], stdout=of, stderr=subprocess.DEVNULL, env=env), of))
+    for k, n, pr, of in procs:
+        pr.wait()
+        of.close()
+        res = open(of.name, "rb").read().decode("utf-8", "replace").split("\n")
+        for i in range(n):
+            out[k + i * nsh] = res[i] if i < len(res) and res[i] != "" else "<missing>"
+    hist = {"ok": 0, "crash": 0, "changed": 0, "accepted": 0, "error": 0}
+    by_class = {}
+    covered = {}
+    nviol = 0
+    for c, l in zip(cases, out):
+        v, text = judge(c, l)
+        hist[v] += 1
+        by_class[c["cls"]] = by_class.get(c["cls"], 0) + 1
+        ep = api_method_of(c["cmd"], c.get("entry_point"))
+        covered.setdefault(ep, set()).add(c["cls"])
+        if v == "ok":
+            continue
+        fid = "C09-badarg:%s[%s]:%s" % (ep, c["cmd"], c["cls"])
+        msg = "%s with a %s argument: %s -> %s" % (ep, c["cls"], c["call"], text)
+        if v == "error":
+            ctx.violation("C09 stage 2: the driver could not make the call %r: %s" % (c["call"], text), "badarg_error.json",
+                          {"mode": "badarg", "case": c, "line": ";".join(STATES[c["state"]] + c["extra"]) + "|" + c["call"], "output": text})
+            continue
+        if ctx.known_finding(fid, msg):
+            continue
+        nviol += 1
+        if nviol <= 6:
+            ctx.violation("C09 bad argument: " + msg, "badarg_%d.json" % nviol,
+                          {"mode": "badarg", "entry_point": ep, "class": c["cls"], "verdict": v, "case": c,
+                           "line": ";".join(STATES[c["state"]] + c["extra"]) + "|" + c["call"], "output": text, "finding_id_if_listed": fid})
+    ctx.cov["evaluations"] += len(cases)
+    # coverage of the public headers
+    api = c09_api.parse_headers(vf.REPO)
+    sel = sorted({"%s::%s" % (a["class"], a["method"]) for a in api if any(a["kinds"])})
+    cov = sorted(m for m in sel if m in covered or any("::" in e and m.split("::")[1] == e.split("::")[1] and _related(m, e) for e in covered))
+    notcov = [m for m in sel if m not in cov]
+    value_only = [m for m in notcov if VALUE_ONLY.match(m.split("::")[1])]
+    notcov = [m for m in notcov if m not in value_only]
+    ctx.log("stage 2: %d calls (%s); %d of the %d public methods that take an entity / index / name are exercised" %
+            (len(cases), hist, len(cov), len(sel)))
+    return {"nontrivial": len(cases) - hist["error"], "samples": [lines[0].split("|")[1], lines[len(lines) // 2].split("|")[1]],
+            "dist": {"calls": len(cases), "verdicts": hist, "by_class": by_class, "start_states": sorted(STATES)},
+            "entry_points": {"taking_entity_index_or_name": len(sel), "covered": cov, "not_covered": notcov,
+                             "not_covered_value_only": value_only,
+                             "note": "value_only: the string parameter is a value to store (a name, id, url, reference to set; a factory's "
+                                     "initial name), nothing is looked up, so no bad argument class applies"}}
+
+
+def _related(m, e):
+    """a method of a base class exercised through a derived class (ComponentEntity through Model/Component, ...)"""
+    fam = [{"ComponentEntity", "Model", "Component"}, {"Entity", "NamedEntity", "ParentedEntity", "Model", "Component", "Variable", "Units", "Reset"},
+           {"ImportedEntity", "Component", "Units"}, {"Logger", "Validator", "Analyser", "Annotator", "Importer", "Parser", "Printer"}]
+    a, b = m.split("::")[0], e.split("::")[0]
+    return any(a in f and b in f for f in fam)
 
 
 def replay(ctx, drv, r):
-    print("not implemented")
+    p = os.path.join(ctx.workdir, "replay_bad.cases")
+    open(p, "w").write(r["line"] + "\n")
+    env = dict(os.environ)
+    env.update({"ASAN_OPTIONS": "detect_leaks=0:exitcode=99"})
+    print("call  :", r["line"].split("|")[1])
+    print("output:", subprocess.run([drv, "badarg", p], capture_output=True, text=True, env=env).stdout.strip())
